@@ -130,12 +130,14 @@ impl Op {
                     Err(x) => e(x),
                 }
             }
-            Op::Cas { exp, new, ts } => match store.compare_and_swap_with_timestamp(key, &exp.encode(), &new.encode(), *ts) {
+            // (half of the swaps and increments go through the `_and_ttl` entry points with an expiry far in the
+            // future: same semantics, separate code path)
+            Op::Cas { exp, new, ts } => match if new.n % 2 == 1 { store.compare_and_swap_with_timestamp_and_ttl(key, &exp.encode(), &new.encode(), *ts, 1_000_000) } else { store.compare_and_swap_with_timestamp(key, &exp.encode(), &new.encode(), *ts) } {
                 Ok(true) => "swapped".into(),
                 Ok(false) => "notSwapped".into(),
                 Err(x) => e(x),
             },
-            Op::Incr { d, ts } => match store.atomic_increment_with_timestamp(key, *d, *ts) {
+            Op::Incr { d, ts } => match if *d % 2 == 0 { store.atomic_increment_with_timestamp_and_ttl(key, *d, *ts, 1_000_000) } else { store.atomic_increment_with_timestamp(key, *d, *ts) } {
                 Ok(n) => format!("counter {}", n),
                 Err(x) => e(x),
             },
